@@ -30,10 +30,21 @@ type genState struct {
 
 func pick(r *rand.Rand, xs ...string) string { return xs[r.Intn(len(xs))] }
 
+// respell: generate writes that spell node n1 as "N1" (flag -respell)
+var respell = false
+
+// node: one of the two nodes; now and then node n1 spelled "N1" (the catalog is case-insensitive)
+func (g *genState) node() string {
+	if respell && g.r.Intn(9) == 0 {
+		return "N1"
+	}
+	return nodes[g.r.Intn(len(nodes))]
+}
+
 // svcWrite: a (re)registration of one of the six service ids with varying content.
 func (g *genState) svcWrite() *Write {
 	r := g.r
-	w := &Write{K: "svc", Node: pick(r, nodes...), SID: pick(r, sids...), Port: 80 + 8000*r.Intn(2), Meta: pick(r, "", "", "a", "b")}
+	w := &Write{K: "svc", Node: g.node(), SID: pick(r, sids...), Port: 80 + 8000*r.Intn(2), Meta: pick(r, "", "", "a", "b")}
 	switch w.SID {
 	case "web1", "web2":
 		w.Name = "web"
@@ -93,7 +104,7 @@ func (g *genState) flipService(node, sid string) *Write {
 // with one or several service updates on that node
 func (g *genState) comboWrite() *Write {
 	r := g.r
-	node := pick(r, nodes...)
+	node := g.node()
 	sid := pick(r, sids...)
 	if n, s, ok := g.someInst(); ok && r.Intn(4) > 0 {
 		node, sid = n, s
@@ -138,7 +149,7 @@ func (g *genState) comboWrite() *Write {
 
 func (g *genState) someInst() (string, string, bool) {
 	var ks []string
-	for _, n := range nodes {
+	for _, n := range []string{"n1", "n2", "N1"} {
 		for _, s := range sids {
 			if g.insts[n+"/"+s] {
 				ks = append(ks, n+"/"+s)
@@ -157,15 +168,15 @@ func (g *genState) write(malformed bool) *Write {
 	if malformed && r.Intn(3) == 0 {
 		switch r.Intn(5) {
 		case 0:
-			return &Write{K: "dsvc", Node: pick(r, nodes...), SID: pick(r, sids...)} // may not exist
+			return &Write{K: "dsvc", Node: g.node(), SID: pick(r, sids...)} // may not exist
 		case 1:
-			return &Write{K: "chk", Node: pick(r, nodes...), Check: "sc-x", SID: pick(r, sids...), Status: "passing"} // service may be missing
+			return &Write{K: "chk", Node: g.node(), Check: "sc-x", SID: pick(r, sids...), Status: "passing"} // service may be missing
 		case 2:
 			return &Write{K: "dcfg", Name: pick(r, svcNames...)}
 		case 3:
 			return &Write{K: "tok", Tok: r.Intn(3), Links: []int{r.Intn(2)}, Desc: pick(r, "x", "y")} // policy may be missing
 		default:
-			return &Write{K: "dnode", Node: pick(r, nodes...)}
+			return &Write{K: "dnode", Node: g.node()}
 		}
 	}
 	acl := g.flavour == "acl"
@@ -183,9 +194,9 @@ func (g *genState) write(malformed bool) *Write {
 		}
 		return g.svcWrite()
 	case x < 52:
-		return &Write{K: "node", Node: pick(r, nodes...), Meta: pick(r, "", "p", "q")}
+		return &Write{K: "node", Node: g.node(), Meta: pick(r, "", "p", "q")}
 	case x < 55:
-		n := pick(r, nodes...)
+		n := g.node()
 		for _, s := range sids {
 			delete(g.insts, n+"/"+s)
 		}
@@ -194,12 +205,12 @@ func (g *genState) write(malformed bool) *Write {
 		if n, s, ok := g.someInst(); ok && r.Intn(3) > 0 {
 			return &Write{K: "chk", Node: n, SID: s, Check: "sc-" + s, Status: pick(r, "passing", "critical", "warning")}
 		}
-		return &Write{K: "chk", Node: pick(r, nodes...), Check: "nc", Status: pick(r, "passing", "critical")}
+		return &Write{K: "chk", Node: g.node(), Check: "nc", Status: pick(r, "passing", "critical")}
 	case x < 69:
 		if n, s, ok := g.someInst(); ok && r.Intn(2) == 0 {
 			return &Write{K: "dchk", Node: n, Check: "sc-" + s}
 		}
-		return &Write{K: "dchk", Node: pick(r, nodes...), Check: "nc"}
+		return &Write{K: "dchk", Node: g.node(), Check: "nc"}
 	case x < 81:
 		return &Write{K: "cfg", Name: pick(r, "web", "api", "db"), Proto: pick(r, "http", "tcp", "grpc")}
 	case x < 85:
@@ -243,7 +254,15 @@ func (g *genState) write(malformed bool) *Write {
 func (g *genState) restoreContent() []Write {
 	var out []Write
 	g.insts = map[string]bool{}
-	for n := g.r.Intn(5); n > 0; n-- {
+	g.pols, g.tokens, g.role = map[int]bool{}, map[int]bool{}, false
+	if g.r.Intn(3) == 0 { // ACL rows in the restored snapshot
+		out = append(out, Write{K: "pol", Pol: 0, Desc: "rp"})
+		g.pols[0] = true
+		t := g.r.Intn(3)
+		out = append(out, Write{K: "tok", Tok: t, Links: []int{0}, Desc: "rt"})
+		g.tokens[t] = true
+	}
+	for n := g.r.Intn(9); n > 0; n-- {
 		if g.r.Intn(3) == 0 {
 			out = append(out, Write{K: "cfg", Name: pick(g.r, "web", "api"), Proto: pick(g.r, "http", "tcp")})
 		} else {
@@ -354,10 +373,10 @@ func genCase(r *rand.Rand, flavour string, n int) ([]Step, bool) {
 				if r.Intn(3) > 0 {
 					switch ts.T {
 					case 0:
-						w = &Write{K: "svc", Node: pick(r, nodes...), SID: pick(r, "web1", "web2"), Name: svcNames[ts.S], Port: 80 + 8000*r.Intn(2), Meta: pick(r, "", "a", "b")}
+						w = &Write{K: "svc", Node: g.node(), SID: pick(r, "web1", "web2"), Name: svcNames[ts.S], Port: 80 + 8000*r.Intn(2), Meta: pick(r, "", "a", "b")}
 						g.insts[w.Node+"/"+w.SID] = true
 					case 1:
-						w = &Write{K: "svc", Node: pick(r, nodes...), SID: "webp", Name: "webp", Kind: "proxy", Dest: svcNames[ts.S], Port: 80 + 8000*r.Intn(2), Meta: pick(r, "", "a", "b")}
+						w = &Write{K: "svc", Node: g.node(), SID: "webp", Name: "webp", Kind: "proxy", Dest: svcNames[ts.S], Port: 80 + 8000*r.Intn(2), Meta: pick(r, "", "a", "b")}
 						g.insts[w.Node+"/"+w.SID] = true
 					default:
 						w = &Write{K: "cfg", Name: pick(r, "web", "api"), Proto: pick(r, "http", "tcp", "grpc")}
@@ -543,6 +562,7 @@ func main() {
 	ncases := flag.Int("n", 0, "number of cases (default by tier)")
 	corpus := flag.String("corpus", "", "directory of replay files executed before the generated cases")
 	asJSON := flag.Bool("json", false, "with -replay: print the executed case as one JSON line")
+	flag.BoolVar(&respell, "respell", false, "also spell node n1 as N1 in generated writes")
 	flag.BoolVar(&debugVals, "vals", false, "include the interned value table in every case (debugging)")
 	flag.Parse()
 
